@@ -17,13 +17,19 @@ def check(res):
     f = factsmod.get_facts()
     status, out = coq_obligations(res, ["Properties_C04.v"])
     known = f["words"]["known_words"]["rows"]
-    s = lexgen.gen_c04(res.tier, res.seed, known)
-    st = run_script(res, s, known, "C04", in_scope)
+    if res.tier == "quick":
+        s = lexgen.gen_c04(res.tier, res.seed, known)
+        st = run_script(res, s, known, "C04", in_scope)
+        all_reqs = s.reqs
+    else:
+        scripts, st = run_histories(res, lambda k: lexgen.gen_c04(res.tier, res.seed * 1000 + k, known, n=(2500, 4000, 6000, 8000)[k % 4]), known, "C04", in_scope, 32)
+        s = scripts[0]
+        all_reqs = [r for sc in scripts for r in sc.reqs]
     if not all(status.values()) and not [v for v in res.violations if v["key"].startswith("oracle:")]:
         res.violation("coq:Properties_C04.v", "proof obligation no longer checks",
                       {"theorem_file": "Properties_C04.v", "error": coq_error_excerpt(out, "Properties_C04.v")}, no_input=True)
     ops = {}
-    for r in s.reqs:
+    for r in all_reqs:
         ops[r[0]] = ops.get(r[0], 0) + 1
     res.coverage.update({
         "evaluations": st["n"], "distinct_nontrivial": st.get("classes", 0),
@@ -34,6 +40,6 @@ def check(res):
                 "constant's own name.  distinct non-trivial = identity classes returned by the implementation",
         "samples": [s.lines[i] for i in (len(s.lines) // 3, len(s.lines) // 2, len(s.lines) - 1)],
         "traces_validated_against_impl": st["n"],
-        "input_distribution": {"requests_by_constructor": ops, "reserved_words": len(known)},
+        "input_distribution": {"requests_by_constructor": ops, "reserved_words": len(known), "independent_histories": st.get("histories", 1)},
     })
     res.assumptions += ["String identity = content identity (C03)", "operands are well-typed (enforced by the C++ static types; the script generator tracks sorts)"]
